@@ -103,6 +103,10 @@ Inductive outcome :=
 | ONative (p : N)
 | OErr (e : err)
 | OUseAfterFree          (* code pointers of a freed object would be executed *)
+| OConfused              (* 78 with a closure entry but a cached pointer that is not a closure: the
+                            fast path has already switched globals_by_index to the layout of the
+                            cached pointer when it falls through to the miss path, which then reads
+                            globals_by_index[idx] under a foreign layout -- outcome not modelled *)
 | ODead | ONoSite
 | ONone.                 (* events other than Call *)
 
@@ -152,8 +156,8 @@ Definition op_call_global_mono (st : state) (sid : N) (s : site) (p : N) : state
                         | None => OUseAfterFree end) in
         if e_clo e then
           match hget st p with                          (* upvalues are fetched from the cached pointer *)
-          | Some o => if is_clo o then use else mono_miss st sid s
-          | None => mono_miss st sid s
+          | Some o => if is_clo o then use else (st, OConfused)
+          | None => (st, OConfused)
           end
         else use
     | None => mono_miss st sid s
@@ -325,7 +329,7 @@ Fixpoint hist_ok (st : state) (h : list event) : bool :=
   end.
 
 (* ---- program level (used by the tie): a call runs the callee's body, which makes calls ---- *)
-Inductive status := SOk | SErr | SOverflow | SUaf | SFuel.
+Inductive status := SOk | SErr | SOverflow | SUaf | SFuel | SConfused.
 
 Definition body_tag (st : state) (code self : N) : option (N * list N) :=
   match hget st code with
@@ -359,6 +363,7 @@ Fixpoint exec_call (fuel : nat) (depth : N) (st : state) (sid : N) : state * lis
                end
       | ONative p => (st1, [match hget st1 p with Some o => o_tag o | None => 0 end], SOk)
       | OUseAfterFree => (st1, [], SUaf)
+      | OConfused => (st1, [], SConfused)
       | _ => (st1, [], SErr)
       end
   end.
@@ -377,7 +382,7 @@ Fixpoint run_input (fuel : nat) (st : state) (evs : list event) (acc : list N) :
   end.
 
 Definition status_code (s : status) : N :=
-  match s with SOk => 0 | SErr => 1 | SOverflow => 2 | SUaf => 3 | SFuel => 4 end.
+  match s with SOk => 0 | SErr => 1 | SOverflow => 2 | SUaf => 3 | SFuel => 4 | SConfused => 5 end.
 
 (* observation of one input: status, number of tags printed, the first 24 of them *)
 Definition obs_input (r : state * list N * status) : list N :=
